@@ -6,10 +6,13 @@ from harness.impl_loc import strip_history, hist_twin  # noqa
 from harness.impl_loc import enc_loc
 from harness.impl_algebra import impl_algebra_op, enc_parent
 
+WARM_TWINS = {"quick": 0.02, "thorough": 0.05}      # engine: call-history twins (harness/warm.py)
 ID = "C02"
 LEAN_MODULE = "BioCantor.Props.C02"
-EXTRA_LEAN_MODULES = ["BioCantor.Props.C02Ties"]   # Gen kernels (regenerated from source) = hand-written model
-GEN_NEEDS = ["SingleInterval_", "Strand_reverse", "Strand_assert_directional", "DistanceType"]
+EXTRA_LEAN_MODULES = ["BioCantor.Props.C02Ties", "BioCantor.Props.C02Ties2"]   # Gen kernels (regenerated from source) = hand-written model
+GEN_NEEDS = ["SingleInterval_", "Strand_reverse", "Strand_assert_directional", "DistanceType",
+             "CompoundInterval_has_overlap", "CompoundInterval_union_single_interval", "CompoundInterval_shift_position",
+             "Location_contains_si"]
 DESIGN_REF = "4/C02"
 DRIVER = "drivers/C02.lean"
 SPEC_DRIVER = "drivers/SpecC02.lean"
